@@ -34,11 +34,17 @@ CLAIMED = {
              "device write of exactly the register, bytes outside unchanged, read-back through the device. Two "
              "_refuted theorems record the defects of the pinned code (unsigned fields reaching bit 63 sign-extended; "
              "63-bit fields overflow) repaired by fix: commits d5eb3ad and 6e75ee7. Tied to /repo by running real "
-             "MaskedIntReg / StructReg-entry nodes built from XML and the extracted model on the same histories.",
+             "MaskedIntReg / StructReg-entry nodes built from XML and the extracted model on the same histories. TIE TO "
+             "THE SOURCE CODE: tools/translate_bitmask.py re-translates the seven methods of `impl BitMask` "
+             "(genapi/src/masked_int_reg.rs) into gen/BitMaskSrc.v on every run (typed mini-Rust parser, debug-build "
+             "semantics of lib/RustInt.v: overflow, shift and cast rules), and 12 `C02_*_from_source` / `C02_source_*` "
+             "theorems prove the translated code equal to the model on every field and restate read-back, isolation, "
+             "exact range check and exact decoding of the translated code itself.",
         note="Trusted: Coq kernel, model/BitField.v + model/RegCodec.v validated by correspondence, extraction + driver, "
+             "tools/translate_bitmask.py + lib/RustInt.v (the semantics given to Rust's integer operations), "
              "rust/h_genapi, tools/c02.py (independent Python field_get/field_put predicate), reghist.py, xmlrender.py. "
              "BE bit numbering is normalised by norm_field (modelled, compared by correspondence).",
-        technique="Coq proof (bit-level lemmas via Z.testbit, induction over write histories) + model/implementation correspondence",
+        technique="Coq proof (bit-level lemmas via Z.testbit, induction over write histories) + code translator (impl BitMask) + model/implementation correspondence",
         design="6/C02"),
     "C10": dict(
         text="Coq theorems (props/C10.v) over the Gallina model of ReadMem/WriteMem::chunks and their iterators: for every "
